@@ -37,25 +37,15 @@ Theorem c02_ift_format2_id_arith : forall last_id dv, 0 <= last_id <= 4294967295
   -9223372036854775808 <= last_id + 1 + dv <= 9223372036854775807.
 Proof. exact f2_id_arith_no_overflow. Qed.
 
-(* format 1 feature map: when every index is u16-representable (sum of entry_map_counts * field_width * 2 <= 65535,
-   first_new_entry_index + entry_map_count <= 65536 for every record) the record indexing never panics — the
-   up-front entry_records_size check, made with the same field_width, keeps entry_map_data[byte_index..] in range *)
-Theorem c02_ift_format1_guard : forall maxe maxg first gentries gids bitmap pf recs data feats,
-  match recs with
-  | Some rs => Forall rec_ok rs /\ sumc rs * f1_width maxe * 2 <= 65535
-  | None => True
-  end ->
+(* format 1: for every table (entry_map_counts unsigned) and every subset definition the glyph-map / feature-map
+   intersection never panics — the up-front entry_records_size check, made with the same field_width as the
+   indexing, keeps entry_map_data[byte_index..] in range; first_new + i is a checked_add *)
+Theorem c02_ift_format1_total : forall maxe maxg first gentries gids bitmap pf recs data feats,
+  match recs with Some rs => Forall rec_ok rs | None => True end ->
   f1_intersect maxe maxg first gentries gids bitmap pf recs data feats <> F1Panic.
-Proof. exact f1_guard_lemma. Qed.
-
-(* full totality of the format-1 path is FALSE of the faithful model (u16 overflow): reported finding *)
-Theorem c02_ift_format1_total_refuted :
-  exists maxe maxg first gentries gids bitmap pf recs data feats,
-    f1_intersect maxe maxg first gentries gids bitmap pf recs data feats = F1Panic.
-Proof. exact f1_total_refuted_lemma. Qed.
+Proof. exact f1_total_lemma. Qed.
 
 Print Assumptions c02_ift_format2_decode_total.
 Print Assumptions c02_ift_format2_entry_progress.
 Print Assumptions c02_ift_format2_id_arith.
-Print Assumptions c02_ift_format1_guard.
-Print Assumptions c02_ift_format1_total_refuted.
+Print Assumptions c02_ift_format1_total.
